@@ -145,6 +145,35 @@ Theorem C10_working_copy_ends_empty :
 Proof. exact mpcc_working_copy_empty. Qed.
 Print Assumptions C10_working_copy_ends_empty.
 
+(* ---- consequences of the specification, hence of ANY labelling the checker accepts (in particular of what
+   the real code wrote on every case of every run): the labels PARTITION the edges into cliques of g *)
+Theorem C10_spec_every_edge_exactly_one_label :
+  forall (g : graph) (ms : nat) (o : obs), Spec g ms o ->
+    forall u v, adj (g_edges g) u v = true ->
+      exists l, has_row (o_rows o) u v l /\ forall l', has_row (o_rows o) u v l' -> l' = l.
+Proof. exact spec_edge_label. Qed.
+Print Assumptions C10_spec_every_edge_exactly_one_label.
+
+Theorem C10_spec_labels_are_cliques :
+  forall (g : graph) (ms : nat) (o : obs), ValidGraph g -> Spec g ms o ->
+    forall e l, In (e, Some l) (o_rows o) -> CliqueP g (lab_mem l).
+Proof. exact spec_label_clique. Qed.
+Print Assumptions C10_spec_labels_are_cliques.
+
+Theorem C10_spec_labels_edge_disjoint :
+  forall (g : graph) (ms : nat) (o : obs), Spec g ms o ->
+    forall e1 l1 e2 l2, In (e1, Some l1) (o_rows o) -> In (e2, Some l2) (o_rows o) -> l1 <> l2 ->
+      forall u v, inpair (lab_mem l1) u v -> ~ inpair (lab_mem l2) u v.
+Proof. exact spec_labels_disjoint. Qed.
+Print Assumptions C10_spec_labels_edge_disjoint.
+
+Theorem C10_spec_one_id_per_clique :
+  forall (g : graph) (ms : nat) (o : obs), Spec g ms o ->
+    forall e1 l1 e2 l2, In (e1, Some l1) (o_rows o) -> In (e2, Some l2) (o_rows o) ->
+      (forall x, In x (lab_mem l1) <-> In x (lab_mem l2)) -> l1 = l2.
+Proof. exact spec_one_id_per_clique. Qed.
+Print Assumptions C10_spec_one_id_per_clique.
+
 (* ---- non-vacuity.  Two K4 sharing the edge {2,3} and a triangle hanging off vertex 5; the schedule is the
    reversed enumeration (33 cliques).  The hypotheses hold; with limit 3 no K4 may be used and the three accepted
    triangles are followed by five 2-cliques; unbounded, the first K4 met wins and the other decays. *)
